@@ -66,6 +66,9 @@ M = {
         ("src/spox/_build.py", "                var._rename(key)", "                var._set_name(key)"),
         ("src/spox/_graph.py", "        var._rename(None)", "        var._set_name(None)"),
         ("src/spox/_internal_op.py", "            self.outputs.arg._rename(self.attrs.name.value)", "            self.outputs.arg._set_name(self.attrs.name.value)")]),
+    "build-prunes-callers-dict": (["C12"], [("src/spox/_public.py",
+        "        del model_proto.graph.input[:]\n",
+        "        for _n in [n for n in inputs if n not in used]:\n            del inputs[_n]\n        del model_proto.graph.input[:]\n")]),
     "renames-restore-to-none": (["C12"], [("src/spox/_public.py",
         "        for arg, name in pre.items():\n            arg._rename(name)",
         "        for arg, name in pre.items():\n            arg._rename(None)")]),
